@@ -80,7 +80,7 @@ def _arc_cow_order(F, A, b, prs, rep, tag):
     else:
         rep.bad("R-COW", key + "/order", why, F.loc(b), tag)
     # the branch: clone happens exactly on the gate-false edge
-    res = _gate_edges(F, B)
+    res = _gate_edges(F, B, A.E)
     if res is None:
         rep.bad("R-COW", key + "/gate", "no branch on the uniqueness test found", F.loc(b), tag)
         return
@@ -100,14 +100,41 @@ def _arc_cow_order(F, A, b, prs, rep, tag):
         rep.bad("R-COW", key + "/gate", "the payload is cloned on the branch where the handle was found to be the sole owner (or the clone is not confined to the shared branch)", F.loc(b), tag)
 
 
+_gate_reach = {}
+
+
 def _is_gate(F, callee):
+    """The uniqueness test, or a function whose own body performs it (e.g. a COW written as `if get_mut(this).is_none()`)."""
+    if not callee:
+        return False
+    k = (id(F), callee)
+    if k not in _gate_reach:
+        _gate_reach[k] = _is_gate0(F, callee)
+        if not _gate_reach[k]:
+            g = cfg.call_graph(F)
+            _gate_reach[k] = any(_is_gate0(F, x) for x in g.get(callee, ()))
+    return _gate_reach[k]
+
+
+def _is_gate0(F, callee):
     if not callee:
         return False
     b = F.body(callee)
     return bool(b) and b.get("name") in ("is_unique",) and F.handle_name((b.get("impl") or {}).get("self_ty", -1) if b.get("impl") else -1) == "Arc" if b and b.get("impl") else False
 
 
-def _gate_edges(F, B):
+def _gate_edges(F, B, E=None):
+    from . import c03
+
+    if E is not None:
+        G = c03.Gates(F)
+        ed = [(x, y) for (x, y, roots, o) in c03.gate_edges_with_order(F, G, B, E) if 1 in roots]
+        if ed:
+            bi = ed[0][0]
+            tt = B.blocks[bi]["term"]
+            true_tgts = [y for (x, y) in ed if x == bi]
+            others = [s for s in cfg.successors(tt, with_unwind=False) if s not in true_tgts]
+            return bi, true_tgts[0], (others[0] if others else None)
     for bi, bl in enumerate(B.blocks):
         tt = bl["term"]
         if tt["k"] != "switch":
